@@ -232,6 +232,51 @@ theorem construct_refuses_missing_fns_lvs (crypto : Key → Obj LName → Bool) 
     exact ⟨id, hid, by simp [hmiss]⟩
   simp [this]
 
+/-! ### the certificate world changes between validations (C14 ∘ C12) -/
+
+/-- the link relation of instance `j`: the C12 signing relation of its schema -/
+def schemaLinks (insts : Nat → Inst) : Nat → LName → LName → Prop :=
+  fun j => SchemaLink (insts j).model (Lvs.pureOf (insts j).fns)
+
+/-- instances over Light VerSec schemas, each holding the storage object `stores i` -/
+def lvsCfgs (insts : Nat → Inst) (stores : Nat → StoreRef) : Nat → Cfg LName := fun i => (insts i).cfg (stores i)
+
+/-- **accept_of_chain_now_lvs.** `accept_of_chain_now` over Light VerSec schemas: whatever the history (failed fetches,
+    earlier states of the network, other instances), a packet that has a chain of schema links to the anchor in the network
+    as it is now is accepted — provided a name denotes one key (`KeyStable`). -/
+theorem accept_of_chain_now_lvs (insts : Nat → Inst) (stores : Nat → StoreRef)
+    (hs : ∀ i, Lvs.sanityCheck (insts i).model = .ok ()) (hv : ∀ i, Lvs.VDet (insts i).model)
+    (henv : ∀ i, Lvs.EnvTotal (insts i).fns) (hc : ∀ i k o, Signed k o → (insts i).crypto k o = true)
+    (w0 : World LName) (h : List (Event LName)) (i fuel : Nat) (o : Obj LName) (l : List LName)
+    (hstable : KeyStable (worldsOf w0 h) (after (lvsCfgs insts stores) w0 h).world)
+    (hch : LvsChain ((insts i).at (after (lvsCfgs insts stores) w0 h).world) Signed l o) (hf : l.length ≤ fuel) :
+    (validateD (lvsCfgs insts stores) (after (lvsCfgs insts stores) w0 h) i fuel o).verdict = some .accept := by
+  have hd := chainD_of_chainL
+    (fun a b => (allowed_iff_schema_link ((insts i).at (after (lvsCfgs insts stores) w0 h).world) (hs i) (hv i) (henv i) a b).mpr)
+    l o hch
+  have hpos := List.length_pos_iff.mpr hch.ne_nil
+  exact accept_of_chain_now Signed (lvsCfgs insts stores) hc w0 h i fuel _ o hstable hd (by omega)
+
+/-- **accept_sound_with_cache_lvs.** `accept_sound_with_cache` over Light VerSec schemas: an acceptance has a chain of
+    C12 signing relations of the instance's schema that reaches the anchor through certificates retrievable now, or ends at
+    a key of a certificate that was retrievable and had such a chain (by the schema and to the anchor of the instance that
+    validated then) at an earlier `validate` event of an instance holding the same storage object. -/
+theorem accept_sound_with_cache_lvs (insts : Nat → Inst) (stores : Nat → StoreRef)
+    (hs : ∀ i, Lvs.sanityCheck (insts i).model = .ok ())
+    (hu : ∀ i k o, (insts i).crypto k o = true → Signed k o)
+    (w0 : World LName) (h : List (Event LName)) (i fuel : Nat) (o : Obj LName)
+    (hacc : (validateD (lvsCfgs insts stores) (after (lvsCfgs insts stores) w0 h) i fuel o).verdict = some .accept) :
+    ∃ d, ChainC (schemaLinks insts i) ((lvsCfgs insts stores i).env (after (lvsCfgs insts stores) w0 h).world) Signed
+      (trustOf (TrustedD (schemaLinks insts) (lvsCfgs insts stores) Signed w0 noTrust h) (stores i)) d o := by
+  obtain ⟨d, hd⟩ := accept_sound_with_cache Signed (lvsCfgs insts stores) hu w0 h i fuel o hacc
+  have hR : ∀ j a b, allowedOf (lvsCfgs insts stores) j a b → schemaLinks insts j a b :=
+    fun j a b hab => allowed_schema_link (insts j) (hs j) a b hab
+  refine ⟨d, ChainC.mono (hR i) ?_ hd⟩
+  show ∀ n k, trustOf _ (stores i) n k → trustOf _ (stores i) n k
+  cases stores i with
+  | empty => exact fun _ _ hf => hf
+  | mem s => exact fun n k ht => trustedD_mono _ _ _ Signed hR h w0 _ _ (fun _ _ _ hx => hx) s n k ht
+
 /-! ### non-vacuity: the schema `#p: "d"/x <= #k`, `#k: "k"/x <= #r`, `#r: "r"` with anchor `/r` -/
 
 namespace LvsEx
@@ -360,6 +405,26 @@ def schemaFn : Lvs.Model :=
 example (anchor : Obj LName) (key : Key) :
     constructLvs gc schemaFn Lvs.Example.noFns anchor key = .error .valueError :=
   construct_refuses_missing_fns_lvs gc _ _ anchor key "$f" (by decide) rfl
+
+/-- the certificate `/k/a` is Nacked at first, then retrievable: the instance, asked again, accepts, whatever it holds -/
+def wNack : World LName := fun i => if i.name = [cK, cA] then some .nack else none
+
+example : traceD (lvsCfgs (fun _ => I) (fun _ => .mem 0)) ⟨wNack, fun _ => []⟩
+      [.validate 0 2 pktDA, .world I.world, .validate 0 2 pktDA, .world wNack, .validate 0 2 pktDA] =
+    [(some .reject, [certInterest [cK, cA]]), (some .accept, [certInterest [cK, cA]]), (some .accept, [])] := by decide
+
+example : (validateD (lvsCfgs (fun _ => I) (fun _ => .mem 0))
+      (after (lvsCfgs (fun _ => I) (fun _ => .mem 0)) wNack [.validate 0 2 pktDA, .world I.world]) 0 2 pktDA).verdict
+    = some .accept := by
+  refine accept_of_chain_now_lvs GS (fun _ => I) (fun _ => .mem 0) (fun _ => s1) (fun _ => s2) (fun _ => s3)
+    (fun _ => gcor) wNack _ 0 2 pktDA _ ?_ chainDA (by decide)
+  intro w hm n c c' hw hcn hw' hcn'
+  simp only [worldsOf, List.mem_cons, List.not_mem_nil, or_false] at hm
+  have hnow : (after (lvsCfgs (fun _ => I) (fun _ => .mem 0)) wNack [.validate 0 2 pktDA, .world I.world]).world = I.world := rfl
+  rw [hnow] at hw'
+  rcases hm with rfl | rfl
+  · simp only [wNack] at hw; split at hw <;> simp at hw
+  · rw [hw] at hw'; cases hw'; rfl
 
 end LvsEx
 
